@@ -80,7 +80,10 @@ CHECKS = {
        "maxGoroutines, minSplitSize, perRound and kernel granularity (or no kernel), the modelled worker ranges, kernel prefix and "
        "scalar rounds cover [0,n) exactly once, worker ranges are pairwise disjoint (any schedule of the internal workers gives the "
        "same bytes), and piecewise evaluation of a column-local function equals whole evaluation; hence any two option records "
-       "agree. Tie: one op file (Encode/Verify/Reconstruct/EncodeIdx/Update, sizes around every threshold, tails 0..63) through "
+       "agree; C07_derive_positive etc.: the parameters New derives (perRound, minSplitSize, maxGoroutines) are positive for every "
+       "cpuid cache size, thread topology, GOMAXPROCS >= 1 and option record, which discharges the hypotheses of the range "
+       "theorems. Tie: the derived parameters of real encoders = RSV.Model.Options.derive under GOMAXPROCS 1/2/5/16; "
+       "one op file (Encode/Verify/Reconstruct/EncodeIdx/Update, sizes around every threshold, tails 0..63) through "
        "the default, noasm, nopshufb and nounsafe builds under GOMAXPROCS 1/2/16 with a 24-row option matrix, all compared "
        "with the single option-free L0 answer.",
   note=TB + " cpuid detection and the option->path mapping are exercised, not modelled; kernels meet their contract by C08; the "
@@ -89,7 +92,9 @@ CHECKS = {
  "C08": dict(
   technique="Lean 4 kernel evaluation of the per-lane recipes on regenerated tables + lane-exhaustive execution of every assembly kernel",
   text="Proof: C08_nibble (PSHUFB recipe low[c][x&15]^high[c][x>>4] = c*x) and C08_affine (GF2P8AFFINEQB with the regenerated bit "
-       "matrix = c*x) for all 65,536 pairs, C08_count, slot layout. Execution tie (this is where the assembly enters): all 600 "
+       "matrix = c*x) for all 65,536 pairs, C08_count, slot layout; C08_switch_table: the six switch functions regenerated from "
+       "galois_gen_switch_amd64.go have exactly the 600 distinct cases, each calling the kernel named after its own shape and "
+       "returning the granularity the model assumes. Execution tie (this is where the assembly enters): all 600 "
        "generated kernels run lane-exhaustively (every slot x 256 coefficients x every byte value at every residue mod 64) and on "
        "random matrices/lengths/start offsets/misaligned buffers with 128-byte guard zones; returned count, untouched bytes outside "
        "[start,start+n), unchanged inputs; hand-written multiply/xor kernels under every instruction-set switch for all 256 "
@@ -223,7 +228,7 @@ def main():
             "guard": "verif",
             "enable": "go build -tags verif (the harness in /verif/harness imports /repo through a replace directive)",
             "baseline_off_cmd": "cd /repo && GOFLAGS=-mod=mod go test -json -vet=off -count=1 -timeout 25m ./...",
-            "source_commits": ["45e309d", "4628913"],
+            "source_commits": ["45e309d", "4628913", "167efa4"],
             "add_only": True,
         },
         "engines": [
@@ -234,7 +239,7 @@ def main():
                                "(harness/, -tags verif) and the compiled Lean driver (lean/Driver.lean)"}],
         "checks": checks,
         "not_applicable": na,
-        "notes": "fix: commits in /repo: 7b8525f f76f5f8 0ba1869 06bbac9 f2ee15c 674193f d4cd075 (see known_findings.json, DESIGN.md section 7)",
+        "notes": "fix: commits in /repo: 7b8525f f76f5f8 0ba1869 06bbac9 f2ee15c 674193f d4cd075 33b1873 eef0134 40188d9 a37e7db 6e0b732 (see known_findings.json, DESIGN.md section 10.3); seeded changes and which checks catch them: /verif/seeded/*/meta.json, DESIGN.md section 10.7",
     }
     json.dump(m, open(os.path.join(V, "MANIFEST.json"), "w"), indent=1)
     print("MANIFEST.json:", len(checks), "checks,", len(na), "not claimed")
